@@ -212,7 +212,9 @@ static int trace_mode(int argc, char** argv) {
       } else {
         a = std::pow(10.0, U(rng) * 17 - 9);          // > 1e-10 as Set_xrange demands
         b = a * (1 + std::pow(10.0, U(rng) * 8 - 3));
-        if (c % 11 == 5) { a = std::pow(10.0, U(rng) * 9 - 9.5); b = std::pow(10.0, 300 + U(rng) * 8); }   // the widest representable ranges
+        static const double EXT[4][2] = {{1e-5, 1e305}, {1.5e-10, 1e300}, {0.5, 1.7e308}, {1e-9, 1e308}};
+        if (c < 4) { a = EXT[c][0]; b = EXT[c][1]; }                                                       // the widest representable ranges
+        if (c % 11 == 5) { a = std::pow(10.0, U(rng) * 9 - 9.5); b = std::pow(10.0, 300 + U(rng) * 7.9); }
         if (c % 11 == 7) { a = std::pow(10.0, 290 + U(rng) * 10); b = a * (1.5 + U(rng) * 50); }
       }
       if (!(a < b)) continue;
